@@ -67,6 +67,19 @@ def v1_bypass(ck):
                 shortcut_terms.append((bb, sc[0]))
                 bypass_edges += [(bb, z) for z in zero]
     ck.floor("V1", len(ok_edges), 1, "`compute_legal_moves(state).is_empty()` decisions")
+    # no value at all may be returned without that decision (or the accepted shortcut) having been taken: an early return
+    # under any other condition would score terminal positions satisfying it as ordinary ones
+    decided = list(ok_edges) + list(bypass_edges)
+    for bb, blk in enumerate(b.blocks):
+        t = blk["term"]
+        if t["k"] == "switch":
+            c = tb.operand(t["discr"])
+            if is_call(c, "MoveSet::is_empty") and is_call(c[2][0], "MoveGenerator::compute_legal_moves") and c[2][0][2][0] == S:
+                decided += [(bb, x[1]) for x in t["cases"]] + [(bb, t["otherwise"])]
+    early = cfg.must_pass(b, [0], cfg.exits(b), [], through_edges=decided)
+    ck.req(early, "V1.no_early_return", "Evaluator::evaluate", b.where(),
+           "Evaluator::evaluate can return a value before deciding whether the side to move has a legal move (and not through the `king has a free square "
+           "and is not in check` shortcut): a checkmate or stalemate satisfying that early condition is not scored as mate / draw")
     good = cfg.must_pass(b, [0], heur, [], through_edges=ok_edges + bypass_edges)
     ck.req(good, "V1.bypass", "Evaluator::evaluate", b.where(),
            "the heuristic part can be reached without generating the legal moves and without the `not in check` edge: a checkmated side with a seemingly free "
